@@ -1,6 +1,8 @@
 package checks
 
 import (
+	"go/types"
+	"go/token"
 	"go/ast"
 
 	"gnoverif/engine"
@@ -75,6 +77,31 @@ func c17StayPutExact(c *engine.Ctx) {
 				continue
 			}
 			full := gt.Full()
+			// a package-local predicate helper: every way it can return true must be one of the stay-put cases
+			if call, isCall := ast.Unparen(gt.Cond).(*ast.CallExpr); isCall {
+				if cs := f.SiteOf(call); cs != nil {
+					if fo, _ := cs.Callee.(*types.Func); fo != nil {
+						if h := f.Prog.FnOf(fo); h != nil && h.Body != nil {
+							if ways, sound := predicateTrueWays(h); sound && len(ways) > 0 {
+								kind = ""
+								for _, w := range ways {
+									k := "OTHER: " + engine.ExprString(w)
+									switch {
+									case engine.MentionsName(w, "Amount") && engine.MentionsName(w, "Price"):
+										k = "price==0"
+									case engine.MentionsName(w, "TargetGasRatio"):
+										k = "ratio==0"
+									}
+									if kind == "" || len(k) > 8 && k[:5] == "OTHER" {
+										kind = k
+									}
+								}
+								continue
+							}
+						}
+					}
+				}
+			}
 			switch {
 			case engine.MentionsName(full, "Cmp") && isZeroLit(gt.Cond) && gt.Tag != nil:
 				kind = "used==target"
@@ -92,7 +119,57 @@ func c17StayPutExact(c *engine.Ctx) {
 		c.Check("stay-put-exact", f.Name+" unmodified return under "+kind, r.Pos(), ok2,
 			"the last price is returned unchanged under a condition other than the three stay-put cases (price 0, ratio 0, used == target): when the block used more or less gas than the target the price must move by at least one unit")
 	})
-	c.Floor("stay-put-exact", n, 3)
+	c.Floor("stay-put-exact", n, 2)
+}
+
+// predicateTrueWays lists, for a bool function, the conditions under which it
+// returns true: the innermost true-side gate of each `return true`, and the
+// ||-disjuncts of each non-constant `return <expr>`. sound=false when a return
+// cannot be classified this way.
+func predicateTrueWays(h *engine.Fn) (ways []ast.Expr, sound bool) {
+	sound = true
+	g := h.Graph()
+	engine.InspectBody(h, func(n ast.Node) {
+		r, ok := n.(*ast.ReturnStmt)
+		if !ok {
+			return
+		}
+		if len(r.Results) != 1 {
+			sound = false
+			return
+		}
+		e := ast.Unparen(r.Results[0])
+		if id, ok := e.(*ast.Ident); ok && (id.Name == "true" || id.Name == "false") {
+			if id.Name == "false" {
+				return
+			}
+			st := h.SiteOf(r)
+			if st == nil {
+				sound = false
+				return
+			}
+			gates := g.Gates(st)
+			found := false
+			for _, gt := range gates {
+				inner := true
+				for _, o := range gates {
+					if o.Block != gt.Block && g.BlockDominates(gt.Block, o.Block) {
+						inner = false
+					}
+				}
+				if inner && gt.OnTrue {
+					ways = append(ways, engine.Conjuncts(gt.Full(), token.LOR)...)
+					found = true
+				}
+			}
+			if !found {
+				sound = false
+			}
+			return
+		}
+		ways = append(ways, engine.Conjuncts(e, token.LOR)...)
+	})
+	return
 }
 
 func isZeroLit(e ast.Expr) bool {
